@@ -419,6 +419,10 @@ func gclass(v string) string {
 func main() { tsh.Main(func() int { realMain(); return 0 }) }
 
 func realMain() {
+	if os.Getenv(ignquitEnv) != "" {
+		ignquitChild()
+		return
+	}
 	r := kit.Start("C17", "model_checking")
 	root, err := os.MkdirTemp(os.Getenv("VERIF_SCRATCH"), "c17")
 	if err != nil {
@@ -435,6 +439,14 @@ func realMain() {
 		}
 		// real clock, real processes: every assertion is one-sided, so a violation seen
 		// on any run is genuine, but it need not show on every run
+		if c.Kind == "ignquit" {
+			for try := 0; try < 3; try++ {
+				if v := runIgnquit(); v != "" {
+					return []kit.V{{Key: "interrupt-ignored-from-birth " + gclass(v), What: v, Case: c}}
+				}
+			}
+			return nil
+		}
 		if c.Grid == nil {
 			if v := warmFarDeadline(root); v != "" {
 				return []kit.V{{Key: "far-deadline-run", What: v, Case: c}}
@@ -462,6 +474,9 @@ func realMain() {
 	// concurrently (they mostly wait for their deadlines)
 	if v := warmFarDeadline(root); v != "" {
 		r.Violation("far-deadline-run", v, kase{Kind: "grid"})
+	}
+	if v := runIgnquit(); v != "" {
+		r.ViolationV(kit.V{Key: "interrupt-ignored-from-birth " + gclass(v), What: v, Case: kase{Kind: "ignquit"}, Timing: true})
 	}
 	cases := gridCases(r.Thorough())
 	var wg sync.WaitGroup
